@@ -23,7 +23,7 @@ STATES = ["BEFORE_OPEN", "BINDING", "OPENED", "CLOSED"]
 CLIENT_OPS = ["bind_simple", "bind_sasl", "search", "extended", "unbind", "drain", "drain_none",
               "recv_bind_response", "recv_search_entry", "recv_search_reference", "recv_search_done",
               "recv_extended_response", "recv_notice", "recv_extended_request", "recv_unbind",
-              "recv2_extended_response", "recv2_search_done"]
+              "recv2_extended_response", "recv2_search_done", "search_unencodable"]
 SERVER_OPS = ["bind_response", "extended_response", "notice", "search_entry", "search_reference", "search_done",
               "unbind", "drain", "drain_none",
               "recv_bind_request", "recv_search_request", "recv_extended_request", "recv_unbind", "recv_extended_response"]
@@ -273,6 +273,9 @@ def do_op(ctx, sess, side, op, tag):
                 info["ret"] = sess.bind_sasl("GSSAPI", t, ctx.bytes(f"{tag}.cred", 1))
             elif op == "search":
                 info["ret"] = sess.search_request(t)
+            elif op == "search_unencodable":
+                # the base DN holds a lone surrogate: encoding fails inside pack(), after validation
+                info["ret"] = sess.search_request("dc=\udc00x", attributes=["cn"])
             elif op == "extended":
                 info["ret"] = sess.extended_request("1.2", ctx.bytes(f"{tag}.val", 1))
             else:
@@ -344,12 +347,14 @@ def check_step(ctx, side, pre, info, post, props, tag=""):
     appended = post["out"][n0:]
     if rejected:
         # ---- C10: refusal has no wire effect and uses the library's own error type
-        if not is_ldap_error(ctx, exc):
+        if not is_ldap_error(ctx, exc) and op != "search_unencodable":
             fail("C10", "call-fails-with-foreign-exception", f"{info['exc_name']}@{info['exc_site']}")
         if not op.startswith("recv"):
             req("C10", len(appended) == 0, "refused-call-left-bytes-queued:" + op)
             req("C12", len(appended) == 0, "failed-send-contributes-bytes-to-the-stream:" + op)
-            if pre["state"] != "CLOSED":
+            if pre["state"] != "CLOSED" and is_ldap_error(ctx, exc):
+                # (a call that fails on an invalid argument - text that cannot be encoded - is a
+                # caller error, not a refusal by the state machine; only C09/C12's clauses apply)
                 req("C08", post["state"] == pre["state"], "refused-call-changed-state:" + op)
     # ---- C08: CLOSED is final
     if pre["state"] == "CLOSED":
@@ -378,6 +383,11 @@ def _client(ctx, pre, info, post, appended, rejected, req, fail, props):
     op = info["op"]
     O, S, c = pre["O"], pre["S"], pre["c"]
     M = ctx.L.messages
+    if op == "search_unencodable":
+        # whatever the outcome type, a send that did not succeed contributes nothing and allocates nothing
+        req("C12", rejected and len(appended) == 0, "failed-send-contributes-bytes-to-the-stream:" + op)
+        req("C09", ctx.all(post["c"] == c, set_eq(ctx, post["O"], O), set_eq(ctx, post["S"], S)), "failed-send-changed-the-id-bookkeeping")
+        return
     if op in ("bind_simple", "bind_sasl", "search", "extended"):
         is_bind = op.startswith("bind")
         must_refuse = (len(O) > 0) if is_bind else (pre["state"] == "BINDING")
